@@ -1,4 +1,6 @@
 import XV.Model.Crc32
+import XV.Model.Msg
+import XV.Model.Dispatch
 /-!
 C20 — p2p messages decode to what was sent, corruption is detected, dispatch is exact.
 -/
@@ -80,11 +82,6 @@ private def TopZero (k : Nat) (s : BitVec 32) : Prop := ∀ i, 32 - k ≤ i → 
 
 private theorem topZero_of_zero (k : Nat) : TopZero k 0#32 := by
   intro i _ _; simp
-
-private theorem eq_zero_of_topZero (s : BitVec 32) (h : TopZero 32 s) : s = 0#32 := by
-  apply BitVec.eq_of_getLsbD_eq
-  intro i hi
-  rw [h i (by omega) hi]; simp
 
 /-- if the top `k+1` bits after a step are zero, no feedback happened and the top `k` bits before were zero -/
 private theorem step_topZero (k : Nat) (hk : k + 1 ≤ 32) (s : BitVec 32) (b : Bool)
@@ -180,5 +177,724 @@ theorem crc_detects_bursts (p e : List Bool) (hlen : p.length = e.length) (hb : 
     congrArg (fun x => run init p ^^^ x) hl
   rw [BitVec.xor_self, ← BitVec.xor_assoc, BitVec.xor_self, BitVec.zero_xor] at this
   exact this.symm
+
+/-- Single-bit flips are the 1-bit case: flipping any one bit of any payload changes the CRC. -/
+theorem crc_detects_single_bit_flip (p : List Bool) (i : Nat) (hi : i < p.length) :
+    crcBits (p.set i (!p[i])) ≠ crcBits p := by
+  let e := List.replicate i false ++ [true] ++ List.replicate (p.length - i - 1) false
+  have hel : p.length = e.length := by simp [e]; omega
+  have hb : IsBurst e := ⟨i, [true], p.length - i - 1, rfl, by simp, by simp⟩
+  have hx : xorBits p e = p.set i (!p[i]) := by
+    apply List.ext_getElem
+    · simp [xorBits, e]; omega
+    · intro n h1 h2
+      simp only [xorBits, List.getElem_zipWith, List.getElem_set]
+      have hn : n < p.length := by simpa [xorBits, ← hel] using h1
+      by_cases hni : i = n
+      · subst hni
+        simp [e, List.getElem_append_right]
+      · simp only [hni, if_false]
+        have : e[n]'(by rw [← hel]; exact hn) = false := by
+          simp only [e]
+          by_cases hlt : n < i
+          · rw [List.getElem_append_left (by simp; omega), List.getElem_append_left (by simpa using hlt)]
+            simp
+          · rw [List.getElem_append_right (by simp; omega)]
+            simp
+        rw [this]; simp
+  rw [← hx]
+  exact crc_detects_bursts p e hel hb
+
+/-! ### the same on byte strings (what `crc32.ChecksumIEEE` is applied to) -/
+
+private theorem byteBits_length (b : Byte) : (byteBits b).length = 8 := rfl
+
+private theorem byteBits_xor (a b : Byte) : byteBits (a ^^^ b) = xorBits (byteBits a) (byteBits b) := by
+  simp [byteBits, xorBits]
+
+private theorem xorBits_append (a b c d : List Bool) (h : a.length = c.length) :
+    xorBits (a ++ b) (c ++ d) = xorBits a c ++ xorBits b d := by
+  unfold xorBits
+  exact List.zipWith_append h
+
+/-- the bits of a bytewise xor are the bitwise xor of the bits -/
+theorem bytesBits_xor (p e : List Byte) (h : p.length = e.length) :
+    bytesBits (xorBytes p e) = xorBits (bytesBits p) (bytesBits e) := by
+  induction p generalizing e with
+  | nil => cases e <;> simp_all [bytesBits, xorBytes, xorBits]
+  | cons a p ih =>
+    cases e with
+    | nil => simp at h
+    | cons b e =>
+      have hl : p.length = e.length := by simpa using h
+      have := ih e hl
+      simp only [bytesBits, xorBytes, List.zipWith_cons_cons, List.flatMap_cons] at this ⊢
+      rw [xorBits_append _ _ _ _ (by simp [byteBits_length]), this, byteBits_xor]
+
+theorem bytesBits_length (p : List Byte) : (bytesBits p).length = 8 * p.length := by
+  induction p with
+  | nil => rfl
+  | cons a p ih =>
+    simp only [bytesBits, List.flatMap_cons, List.length_append] at ih ⊢
+    rw [ih, byteBits_length, List.length_cons]; omega
+
+/-- **Headline, byte form.** `crc32` is what `crc32.ChecksumIEEE` computes; `e` is the error pattern as
+bytes (xor-ed into the payload), its bits confined to ≤ 32 consecutive positions. -/
+theorem crc32_detects_bursts (p e : List Byte) (hlen : p.length = e.length) (hb : IsBurst (bytesBits e)) :
+    crc32 (xorBytes p e) ≠ crc32 p := by
+  unfold crc32
+  rw [bytesBits_xor p e hlen]
+  exact crc_detects_bursts _ _ (by rw [bytesBits_length, bytesBits_length, hlen]) hb
+
+/-- the driver's byte-at-a-time evaluation is the same function -/
+theorem crc32Fast_eq (bs : List Byte) : crc32Fast bs = crc32 bs := by
+  unfold crc32Fast crc32 crcBits bytesBits
+  congr 1
+  generalize init = s
+  induction bs generalizing s with
+  | nil => rfl
+  | cons b bs ih => simp only [List.foldl_cons, List.flatMap_cons, run_append]; exact ih _
+
+-- non-vacuity / tightness: 32 is sharp — the 33-bit generator polynomial pattern goes unnoticed …
+example : crcBits (xorBits (List.replicate 40 false)
+      ([true] ++ (List.range 32).map (fun i => poly.getLsbD i) ++ List.replicate 7 false))
+    = crcBits (List.replicate 40 false) := by decide
+-- … while a concrete 32-bit burst meets the hypotheses of the theorem
+example : IsBurst ([false, false] ++ ([true] ++ List.replicate 30 false ++ [true]) ++ [false]) :=
+  ⟨2, [true] ++ List.replicate 30 false ++ [true], 1, by decide, by decide, by decide⟩
+set_option maxRecDepth 8192 in
+example : crc32 [0x31#8, 0x32#8, 0x33#8, 0x34#8, 0x35#8, 0x36#8, 0x37#8, 0x38#8, 0x39#8] = 0xCBF43926#32 := by decide
+
+/-! ## messages: what was sent is what is decoded; corruption is rejected before decoding -/
+section Messages
+open XV.Msg
+
+private theorem applyOpt_keeps (m : Msg) (o : Opt) :
+    (applyOpt m o).info = m.info ∧ (applyOpt m o).header.enableCompress = m.header.enableCompress := by
+  cases o <;> exact ⟨rfl, rfl⟩
+
+private theorem applyOpts_keeps (opts : List Opt) (m : Msg) :
+    (opts.foldl applyOpt m).info = m.info ∧
+    (opts.foldl applyOpt m).header.enableCompress = m.header.enableCompress := by
+  induction opts generalizing m with
+  | nil => exact ⟨rfl, rfl⟩
+  | cons o os ih =>
+    obtain ⟨h1, h2⟩ := ih (applyOpt m o)
+    obtain ⟨h3, h4⟩ := applyOpt_keeps m o
+    exact ⟨by simpa [h3] using h1, by simpa [h4] using h2⟩
+
+/-- The wire (proto.Marshal / Unmarshal of the envelope) only turns an empty `MsgInfo` into a nil one;
+`Unmarshal` reads the payload bytes through `GetMsgInfo()`-style accessors, so it cannot tell. -/
+theorem wire_transparent {α : Type} (C : Codec α) (m : Msg) : unmarshal C (wire m) = unmarshal C m := by
+  have hb : (wire m).bytes = m.bytes := by
+    unfold wire Msg.bytes
+    cases hm : m.info with
+    | none => rfl
+    | some b => cases b <;> rfl
+  have hh : (wire m).header = m.header := rfl
+  unfold unmarshal verifyChecksum decompress
+  rw [hb, hh]
+
+/-- every message built by `NewMessage` carries the checksum of its own encoded payload -/
+theorem newMessage_checksum_ok {α : Type} (C : Codec α) (typ : Nat) (logid : Str) (payload : Option α)
+    (opts : List Opt) : verifyChecksum (newMessage C typ logid payload opts) = true := by
+  simp [newMessage, verifyChecksum, checksum, Msg.bytes]
+
+private theorem decompress_of_compress {α : Type} (C : Codec α) (hC : C.Lawful) (m fm : Msg)
+    (h : m.header.enableCompress = false) (hi : fm.info = (compress C m).info)
+    (hc : fm.header.enableCompress = (compress C m).header.enableCompress) :
+    decompress C fm = some m.bytes := by
+  unfold decompress
+  unfold compress at hi hc
+  by_cases hlen : m.bytes.length = 0
+  · simp only [hlen, if_true] at hi hc
+    simp [hc, h, Msg.bytes, hi]
+  · simp only [hlen, if_false, h, Bool.false_eq_true] at hi hc
+    simp [hc, Msg.bytes, hi, hC.decompress_compress]
+
+/-- what the receiver computes from a built message: the protobuf decoding of the marshalled payload
+(of the empty byte string for a nil message) -/
+theorem unmarshal_newMessage {α : Type} (C : Codec α) (hC : C.Lawful) (typ : Nat) (logid : Str)
+    (payload : Option α) (opts : List Opt) :
+    unmarshal C (newMessage C typ logid payload opts) =
+      (match C.unmarshal ((payload.map C.marshal).getD []) with
+       | none => .error .unmarshal
+       | some a => .ok a) := by
+  have hv := newMessage_checksum_ok C typ logid payload opts
+  unfold unmarshal
+  rw [hv]
+  simp only [Bool.not_true, Bool.false_eq_true, if_false]
+  obtain ⟨hinfo, hcomp⟩ := applyOpts_keeps opts
+    { header := { version := version3, logid := logid, sender := [], bcname := defaultChain, typ := typ,
+                  checksum := 0#32, errorType := errorNone, enableCompress := false },
+      info := payload.map C.marshal }
+  have hd := decompress_of_compress C hC _ (newMessage C typ logid payload opts) hcomp rfl rfl
+  rw [hd]
+  simp only [Msg.bytes, hinfo]
+  cases C.unmarshal ((payload.map C.marshal).getD []) <;> rfl
+
+/-- **In-process round trip**: for every type, log id, payload (also one that marshals to zero
+bytes) and option list, decoding the built message returns the payload. -/
+theorem roundtrip_inproc {α : Type} (C : Codec α) (hC : C.Lawful) (typ : Nat) (logid : Str) (a : α)
+    (opts : List Opt) : unmarshal C (newMessage C typ logid (some a) opts) = .ok a := by
+  rw [unmarshal_newMessage C hC]
+  simp [hC.unmarshal_marshal]
+
+/-- **Round trip over the wire**: `unmarshal (wire (newMessage typ p opts)) = p`. -/
+theorem roundtrip {α : Type} (C : Codec α) (hC : C.Lawful) (typ : Nat) (logid : Str) (a : α)
+    (opts : List Opt) : unmarshal C (wire (newMessage C typ logid (some a) opts)) = .ok a := by
+  rw [wire_transparent]; exact roundtrip_inproc C hC typ logid a opts
+
+/-- a nil message travels as the empty byte string: the receiver decodes the all-default value
+(whatever protobuf makes of zero bytes), it does not fail in `Decompress` -/
+theorem roundtrip_nil {α : Type} (C : Codec α) (hC : C.Lawful) (typ : Nat) (logid : Str) (opts : List Opt)
+    (dflt : α) (hd : C.unmarshal [] = some dflt) :
+    unmarshal C (wire (newMessage C typ logid none opts)) = .ok dflt := by
+  rw [wire_transparent, unmarshal_newMessage C hC]
+  simp [hd]
+
+/-- The checksum is verified before anything is decompressed or decoded: a message whose checksum
+does not verify is never delivered, whatever the codec would make of its bytes. -/
+theorem corruption_detected {α : Type} (C : Codec α) (m : Msg) (h : verifyChecksum m = false) :
+    unmarshal C m = .error .checksum := by
+  simp [unmarshal, h]
+
+/-- Any burst of ≤ 32 bits (any position, any payload length) in the encoded payload of a message with a
+valid checksum — in particular of every message built by `newMessage` — is rejected, not delivered. -/
+theorem burst_corruption_rejected {α : Type} (C : Codec α) (m : Msg) (e : Bytes)
+    (hok : verifyChecksum m = true) (hlen : m.bytes.length = e.length) (hb : IsBurst (bytesBits e)) :
+    unmarshal C { m with info := some (xorBytes m.bytes e) } = .error .checksum := by
+  apply corruption_detected
+  have hne := crc32_detects_bursts m.bytes e hlen hb
+  have hsum : crc32 m.bytes = m.header.checksum := by simpa [verifyChecksum] using hok
+  simp only [verifyChecksum, Msg.bytes, Option.getD_some]
+  rw [← hsum]
+  simpa [Msg.bytes] using hne
+
+/-- `GetRespMessageType` on the tables regenerated from message.go and network.pb.go: every message
+type `T` for which the enum has a `T_RES` is mapped to it. -/
+theorem resp_type_map : ∀ p ∈ XV.Gen.resPairsByName, getRespMessageType p.1 = p.2 := by decide
+
+/-- distinct requests never share a response type, and a response type is never its own request -/
+theorem resp_type_injective_on_requests :
+    ∀ p ∈ XV.Gen.resPairsByName, ∀ q ∈ XV.Gen.resPairsByName,
+      getRespMessageType p.1 = getRespMessageType q.1 → p.1 = q.1 := by decide
+
+/-- outside the table the answer is the next enum value -/
+theorem resp_type_default (t : Nat) (h : XV.Gen.requestToResponse.lookup t = none) :
+    getRespMessageType t = t + XV.Gen.respDefaultOffset := by
+  simp [getRespMessageType, h]
+
+-- non-vacuity: a lawful codec exists (identity), the table is not empty, a message with a payload
+example : (⟨id, some, id, some⟩ : Codec Bytes).Lawful := ⟨fun _ => rfl, fun _ => rfl⟩
+example : XV.Gen.resPairsByName.length ≥ 5 := by decide
+example : (match unmarshal ⟨id, some, id, some⟩ (wire (newMessage ⟨id, some, id, some⟩ 3 [] (some [1#8, 2#8]) [.bcName ['a']])) with
+    | .ok a => a == [1#8, 2#8]
+    | .error _ => false) = true := by decide
+
+end Messages
+
+/-! ## dispatcher: exact delivery, de-duplication window, lock discipline -/
+section Dispatcher
+open XV.Dispatch
+
+/-- invariant of every reachable subscriber table -/
+def Inv (st : State) : Prop :=
+  st.subs.Nodup ∧ ∀ s ∈ st.subs, s.typ ≠ typeNone ∧ s.typ ∈ st.types
+
+theorem inv_init : Inv Dispatch.init := by simp [Inv, Dispatch.init]
+
+private theorem inv_register (st : State) (s : Sub) (h : Inv st) : Inv (register st s).1 := by
+  obtain ⟨hnd, hall⟩ := h
+  unfold register
+  by_cases h1 : s.typ = typeNone
+  · simp only [h1, if_true]; exact ⟨hnd, hall⟩
+  · simp only [h1, if_false]
+    have hsub : ∀ t ∈ st.types, t ∈ (if s.typ ∈ st.types then st.types else s.typ :: st.types) := by
+      intro t ht; split
+      · exact ht
+      · exact List.mem_cons_of_mem _ ht
+    have hs : s.typ ∈ (if s.typ ∈ st.types then st.types else s.typ :: st.types) := by
+      split
+      · assumption
+      · exact List.mem_cons_self
+    by_cases h2 : s ∈ st.subs
+    · simp only [h2, if_true]
+      exact ⟨hnd, fun x hx => ⟨(hall x hx).1, hsub _ (hall x hx).2⟩⟩
+    · simp only [h2, if_false]
+      refine ⟨?_, ?_⟩
+      · apply List.nodup_append.mpr
+        refine ⟨hnd, by simp, ?_⟩
+        intro a ha b hb
+        have : b = s := by simpa using hb
+        subst this
+        intro hab; subst hab; exact h2 ha
+      · intro x hx
+        rcases List.mem_append.mp hx with hx | hx
+        · exact ⟨(hall x hx).1, hsub _ (hall x hx).2⟩
+        · have : x = s := by simpa using hx
+          subst this
+          exact ⟨h1, hs⟩
+
+private theorem inv_unregister (st : State) (s : Sub) (h : Inv st) : Inv (unregister st s).1 := by
+  obtain ⟨hnd, hall⟩ := h
+  unfold unregister
+  by_cases h1 : s.typ = typeNone
+  · simp only [h1, if_true]; exact ⟨hnd, hall⟩
+  · simp only [h1, if_false]
+    by_cases h2 : s.typ ∉ st.types
+    · simp only [h2, not_false_eq_true, if_true]; exact ⟨hnd, hall⟩
+    · simp only [h2, if_false]
+      by_cases h3 : s ∉ st.subs
+      · simp only [h3, not_false_eq_true, if_true]; exact ⟨hnd, hall⟩
+      · simp only [h3, if_false]
+        exact ⟨hnd.filter _, fun x hx => hall x (List.mem_filter.mp hx).1⟩
+
+private theorem dispatch_subs (st : State) (m : MsgId) (hs : Bool) :
+    (dispatch st m hs).1.subs = st.subs ∧ (dispatch st m hs).1.types = st.types ∧
+    (dispatch st m hs).1.now = st.now := by
+  unfold dispatch
+  split
+  · exact ⟨rfl, rfl, rfl⟩
+  · split
+    · exact ⟨rfl, rfl, rfl⟩
+    · split <;> exact ⟨rfl, rfl, rfl⟩
+
+private theorem inv_applyOp (st : State) (op : Op) (h : Inv st) : Inv (applyOp st op) := by
+  cases op with
+  | register s => exact inv_register st s h
+  | unregister s => exact inv_unregister st s h
+  | dispatch m hs =>
+    obtain ⟨h1, h2, _⟩ := dispatch_subs st m hs
+    simp only [applyOp, Inv, h1, h2]; exact h
+  | tick ms => exact h
+
+/-- the invariant holds after every history -/
+theorem inv_runOps (ops : List Op) (st : State) (h : Inv st) : Inv (runOps st ops) := by
+  induction ops generalizing st with
+  | nil => exact h
+  | cons op ops ih => exact ih _ (inv_applyOp st op h)
+
+/-- what a history says about subscriber `s`: its last effective Register / UnRegister decides -/
+def regUpd (s : Sub) (acc : Bool) : Op → Bool
+  | .register s' => if s' = s ∧ s.typ ≠ typeNone then true else acc
+  | .unregister s' => if s' = s then false else acc
+  | _ => acc
+
+private theorem table_step (st : State) (h : Inv st) (s : Sub) (op : Op) :
+    decide (s ∈ (applyOp st op).subs) = regUpd s (decide (s ∈ st.subs)) op := by
+  obtain ⟨_, hall⟩ := h
+  cases op with
+  | register s' =>
+    simp only [applyOp, regUpd, register]
+    by_cases h1 : s'.typ = typeNone
+    · simp only [h1, if_true]
+      by_cases hss : s' = s
+      · subst hss; simp [h1]
+      · simp [hss]
+    · simp only [h1, if_false]
+      by_cases h2 : s' ∈ st.subs
+      · simp only [h2, if_true]
+        by_cases hss : s' = s
+        · subst hss; simp [h1, h2]
+        · simp [hss]
+      · simp only [h2, if_false]
+        by_cases hss : s' = s
+        · subst hss; simp [h1]
+        · have : ¬ s = s' := fun h => hss h.symm
+          simp [hss, this]
+  | unregister s' =>
+    simp only [applyOp, regUpd, unregister]
+    by_cases hss : s' = s
+    · subst hss
+      simp only [if_true]
+      by_cases h1 : s'.typ = typeNone
+      · simp only [h1, if_true]
+        have : s' ∉ st.subs := fun hm => (hall _ hm).1 h1
+        simp [this]
+      · simp only [h1, if_false]
+        by_cases h2 : s'.typ ∉ st.types
+        · simp only [h2, not_false_eq_true, if_true]
+          have : s' ∉ st.subs := fun hm => h2 (hall _ hm).2
+          simp [this]
+        · simp only [h2, if_false]
+          by_cases h3 : s' ∉ st.subs
+          · simp [h3]
+          · simp [h3]
+    · simp only [hss, if_false]
+      by_cases h1 : s'.typ = typeNone
+      · simp [h1]
+      · simp only [h1, if_false]
+        by_cases h2 : s'.typ ∉ st.types
+        · simp [h2]
+        · simp only [h2, if_false]
+          by_cases h3 : s' ∉ st.subs
+          · simp [h3]
+          · have : ¬ s = s' := fun h => hss h.symm
+            simp [h3, this]
+  | dispatch m hs => simp only [applyOp, regUpd, (dispatch_subs st m hs).1]
+  | tick ms => rfl
+
+/-- **The table is exact**: after any history, `s` is in the table iff its last effective
+Register/UnRegister in the history was a Register. -/
+theorem table_exact (ops : List Op) (st : State) (h : Inv st) (s : Sub) :
+    s ∈ (runOps st ops).subs ↔ ops.foldl (regUpd s) (decide (s ∈ st.subs)) = true := by
+  induction ops generalizing st with
+  | nil => simp [runOps]
+  | cons op ops ih =>
+    have := ih (applyOp st op) (inv_applyOp st op h)
+    simp only [runOps, List.foldl_cons] at this ⊢
+    rw [this, table_step st h s op]
+
+/-- **Exact delivery.** After any history of Register / UnRegister / Dispatch / clock ticks, a message
+that is not a repeat of a handled one and whose type has a table entry is handed to a duplicate-free
+list of subscribers, namely exactly those whose last effective (un)registration was a Register,
+whose type is the message's and whose chain / sender filters match — and to no other. -/
+theorem dispatch_exact (ops : List Op) (m : MsgId)
+    (hh : isHandled (runOps init ops) (msgKey m) = false) (ht : m.typ ∈ (runOps init ops).types) :
+    (dispatch (runOps init ops) m true).2.1 = .ok ∧
+    (dispatch (runOps init ops) m true).2.2.Nodup ∧
+    ∀ s, s ∈ (dispatch (runOps init ops) m true).2.2 ↔
+      (ops.foldl (regUpd s) false = true ∧ s.typ = m.typ ∧ sub_matches s m = true) := by
+  have hinv := inv_runOps ops Dispatch.init inv_init
+  have hd : dispatch (runOps init ops) m true =
+      (maskHandled (runOps init ops) (msgKey m), .ok, targets (runOps init ops) m) := by
+    simp [dispatch, hh, ht]
+  rw [hd]
+  refine ⟨rfl, hinv.1.filter _, fun s => ?_⟩
+  have ht : s ∈ (runOps Dispatch.init ops).subs ↔ ops.foldl (regUpd s) false = true := by
+    have := table_exact ops Dispatch.init inv_init s
+    rwa [show decide (s ∈ Dispatch.init.subs) = false from by simp [Dispatch.init]] at this
+  simp only [targets, List.mem_filter, decide_eq_true_eq, Bool.and_eq_true, Bool.decide_and]
+  rw [ht]
+
+/-- what `Dispatch` answers otherwise: nothing is delivered and nothing is remembered -/
+theorem dispatch_rejects (st : State) (m : MsgId) (hh : isHandled st (msgKey m) = false) :
+    dispatch st m false = (st, .streamNil, []) ∧
+    (m.typ ∉ st.types → dispatch st m true = (st, .notRegister, [])) := by
+  constructor
+  · simp [dispatch, hh]
+  · intro ht; simp [dispatch, hh, ht]
+
+/-! ### the de-duplication window -/
+
+private theorem register_frame (st : State) (s : Sub) :
+    (register st s).1.handled = st.handled ∧ (register st s).1.now = st.now ∧
+    ∀ t ∈ st.types, t ∈ (register st s).1.types := by
+  unfold register
+  by_cases h1 : s.typ = typeNone
+  · simp [h1]
+  · by_cases h2 : s ∈ st.subs <;> by_cases h3 : s.typ ∈ st.types <;> simp [h1, h2, h3] <;>
+      (intro t ht; exact Or.inr ht)
+
+private theorem unregister_frame (st : State) (s : Sub) :
+    (unregister st s).1.handled = st.handled ∧ (unregister st s).1.now = st.now ∧
+    (unregister st s).1.types = st.types := by
+  unfold unregister
+  by_cases h1 : s.typ = typeNone
+  · simp [h1]
+  · by_cases h2 : s.typ ∈ st.types <;> by_cases h3 : s ∈ st.subs <;> simp [h1, h2, h3]
+
+private theorem applyOp_now (st : State) (op : Op) : st.now ≤ (applyOp st op).now := by
+  cases op with
+  | register s => simp only [applyOp, (register_frame st s).2.1]; exact Nat.le_refl _
+  | unregister s => simp only [applyOp, (unregister_frame st s).2.1]; exact Nat.le_refl _
+  | dispatch m hs => rw [show (applyOp st (.dispatch m hs)).now = st.now from (dispatch_subs st m hs).2.2]; exact Nat.le_refl _
+  | tick ms => simp [applyOp, tick]
+
+private theorem applyOp_handled_regs (st : State) (op : Op)
+    (h : ∀ m hs, op ≠ .dispatch m hs) : (applyOp st op).handled = st.handled := by
+  cases op with
+  | register s => exact (register_frame st s).1
+  | unregister s => exact (unregister_frame st s).1
+  | dispatch m hs => exact absurd rfl (h m hs)
+  | tick ms => rfl
+
+/-- the handled entry of key `k` written at time `t0` is still there (or renewed) after any history -/
+private theorem handled_persists (k : Str) (t0 : Nat) (ops : List Op) (st : State)
+    (hq : t0 ≤ st.now ∧ ∃ e, (k, e) ∈ st.handled ∧ t0 + window ≤ e) :
+    t0 ≤ (runOps st ops).now ∧ ∃ e, (k, e) ∈ (runOps st ops).handled ∧ t0 + window ≤ e := by
+  induction ops generalizing st with
+  | nil => exact hq
+  | cons op ops ih =>
+    apply ih
+    obtain ⟨hn, e, he, hw⟩ := hq
+    refine ⟨Nat.le_trans hn (applyOp_now st op), ?_⟩
+    by_cases hd : ∀ m hs, op ≠ .dispatch m hs
+    · rw [applyOp_handled_regs st op hd]; exact ⟨e, he, hw⟩
+    · have : ∃ m hs, op = .dispatch m hs := by
+        cases op with
+        | dispatch m hs => exact ⟨m, hs, rfl⟩
+        | register s => exact absurd (fun _ _ h => Op.noConfusion h) hd
+        | unregister s => exact absurd (fun _ _ h => Op.noConfusion h) hd
+        | tick ms => exact absurd (fun _ _ h => Op.noConfusion h) hd
+      obtain ⟨m, hs, rfl⟩ := this
+      simp only [applyOp, dispatch]
+      split
+      · exact ⟨e, he, hw⟩
+      · split
+        · exact ⟨e, he, hw⟩
+        · split
+          · exact ⟨e, he, hw⟩
+          · by_cases hk : msgKey m = k
+            · exact ⟨st.now + window, by simp [maskHandled, hk], by omega⟩
+            · refine ⟨e, ?_, hw⟩
+              simp only [maskHandled, List.mem_cons, List.mem_filter]
+              right
+              exact ⟨he, by simpa using fun h => hk h.symm⟩
+
+/-- **Repeats inside the window are dropped.** Once a message has been handled, every message with
+the same key dispatched while the clock has not advanced by more than the window — after any
+intervening registrations, unregistrations and dispatches — is handed to nobody (and `Dispatch`
+still answers nil). -/
+theorem repeat_dropped (st : State) (m m' : MsgId) (ops : List Op) (hs : Bool)
+    (hh : isHandled st (msgKey m) = false) (ht : m.typ ∈ st.types) (hk : msgKey m' = msgKey m)
+    (hw : (runOps (dispatch st m true).1 ops).now ≤ st.now + window) :
+    dispatch (runOps (dispatch st m true).1 ops) m' hs = (runOps (dispatch st m true).1 ops, .ok, []) := by
+  have hd : (dispatch st m true).1 = maskHandled st (msgKey m) := by simp [dispatch, hh, ht]
+  rw [hd] at hw ⊢
+  obtain ⟨_, e, he, hwe⟩ := handled_persists (msgKey m) st.now ops (maskHandled st (msgKey m))
+    ⟨by simp [maskHandled], st.now + window, by simp [maskHandled], Nat.le_refl _⟩
+  have : isHandled (runOps (maskHandled st (msgKey m)) ops) (msgKey m') = true := by
+    simp only [isHandled, List.any_eq_true]
+    exact ⟨(msgKey m, e), he, by simp [hk]; omega⟩
+  simp [dispatch, this]
+
+private theorem handled_bounded (k : Str) (T : Nat) (ops : List Op) (st : State)
+    (hno : ∀ op ∈ ops, ∀ m hs, op = Op.dispatch m hs → msgKey m ≠ k)
+    (hb : ∀ e, (k, e) ∈ st.handled → e ≤ T) :
+    ∀ e, (k, e) ∈ (runOps st ops).handled → e ≤ T := by
+  induction ops generalizing st with
+  | nil => exact hb
+  | cons op ops ih =>
+    apply ih _ (fun o ho => hno o (List.mem_cons_of_mem _ ho))
+    intro e he
+    cases op with
+    | register s => rw [applyOp_handled_regs st _ (fun _ _ h => Op.noConfusion h)] at he; exact hb e he
+    | unregister s => rw [applyOp_handled_regs st _ (fun _ _ h => Op.noConfusion h)] at he; exact hb e he
+    | tick ms => exact hb e he
+    | dispatch m hs =>
+      have hne := hno _ List.mem_cons_self m hs rfl
+      simp only [applyOp, dispatch] at he
+      split at he
+      · exact hb e he
+      · split at he
+        · exact hb e he
+        · split at he
+          · exact hb e he
+          · simp only [maskHandled, List.mem_cons, List.mem_filter, Prod.mk.injEq] at he
+            rcases he with ⟨hk, _⟩ | ⟨he, _⟩
+            · exact absurd hk.symm hne
+            · exact hb e he
+
+private theorem types_mono (t : Nat) (ops : List Op) (st : State) (h : t ∈ st.types) :
+    t ∈ (runOps st ops).types := by
+  induction ops generalizing st with
+  | nil => exact h
+  | cons op ops ih =>
+    apply ih
+    cases op with
+    | register s => exact (register_frame st s).2.2 t h
+    | unregister s => simp only [applyOp, (unregister_frame st s).2.2]; exact h
+    | dispatch m hs => rw [show (applyOp st (.dispatch m hs)).types = st.types from (dispatch_subs st m hs).2.1]; exact h
+    | tick ms => exact h
+
+/-- **Repeats after the window are delivered again.** If no message with the same key was dispatched
+in between and the clock has advanced by more than the window, the message is handed (again) to
+exactly the subscribers then registered and matching. -/
+theorem repeat_redelivered (st : State) (m : MsgId) (ops : List Op)
+    (hh : isHandled st (msgKey m) = false) (ht : m.typ ∈ st.types)
+    (hno : ∀ op ∈ ops, ∀ m' hs, op = Op.dispatch m' hs → msgKey m' ≠ msgKey m)
+    (hw : st.now + window < (runOps (dispatch st m true).1 ops).now) :
+    dispatch (runOps (dispatch st m true).1 ops) m true =
+      (maskHandled (runOps (dispatch st m true).1 ops) (msgKey m), .ok,
+       targets (runOps (dispatch st m true).1 ops) m) := by
+  have hd : (dispatch st m true).1 = maskHandled st (msgKey m) := by simp [dispatch, hh, ht]
+  rw [hd] at hw ⊢
+  have hb := handled_bounded (msgKey m) (st.now + window) ops (maskHandled st (msgKey m)) hno (by
+    intro e he
+    simp only [maskHandled, List.mem_cons, List.mem_filter, Prod.mk.injEq] at he
+    rcases he with ⟨_, he⟩ | ⟨_, hne⟩
+    · omega
+    · simp at hne)
+  have hnot : isHandled (runOps (maskHandled st (msgKey m)) ops) (msgKey m) = false := by
+    rw [Bool.eq_false_iff]
+    intro h
+    simp only [isHandled, List.any_eq_true, decide_eq_true_eq] at h
+    obtain ⟨⟨k, e⟩, he, hk, hle⟩ := h
+    simp only at hk hle
+    subst hk
+    have := hb e he
+    omega
+  have htyp : m.typ ∈ (runOps (maskHandled st (msgKey m)) ops).types :=
+    types_mono m.typ ops _ (by simpa [maskHandled] using ht)
+  simp [dispatch, hnot, htyp]
+
+/-! ### the de-duplication key tells all messages apart -/
+
+private theorem colon_split (l1 l2 x y : Str) (h1 : ':' ∉ l1) (h2 : ':' ∉ l2)
+    (h : l1 ++ ':' :: x = l2 ++ ':' :: y) : l1 = l2 ∧ x = y := by
+  induction l1 generalizing l2 with
+  | nil =>
+    cases l2 with
+    | nil => simpa using h
+    | cons b l2 =>
+      simp only [List.nil_append, List.cons_append, List.cons.injEq] at h
+      exact absurd (by rw [← h.1]; exact List.mem_cons_self) h2
+  | cons a l1 ih =>
+    cases l2 with
+    | nil =>
+      simp only [List.nil_append, List.cons_append, List.cons.injEq] at h
+      exact absurd (by rw [h.1]; exact List.mem_cons_self) h1
+    | cons b l2 =>
+      simp only [List.cons_append, List.cons.injEq] at h
+      obtain ⟨hab, ht⟩ := h
+      have := ih l2 (fun hm => h1 (List.mem_cons_of_mem _ hm)) (fun hm => h2 (List.mem_cons_of_mem _ hm)) ht
+      exact ⟨by rw [hab, this.1], this.2⟩
+
+private theorem toDigits_inj (a b : Nat) (h : Nat.toDigits 10 a = Nat.toDigits 10 b) : a = b := by
+  have := congrArg (fun l => Nat.ofDigitChars 10 l 0) h
+  simpa [Nat.ofDigitChars_ten_toDigits] using this
+
+private theorem colon_not_in_digits (n : Nat) : ':' ∉ Nat.toDigits 10 n := by
+  intro h
+  have := Nat.isDigit_of_mem_toDigits (by decide) (by decide) h
+  exact absurd this (by decide)
+
+private theorem encField_inj (f f' r r' : Str)
+    (h : encField true f ++ r = encField true f' ++ r') : f = f' ∧ r = r' := by
+  simp only [encField, if_true, List.append_assoc, List.cons_append] at h
+  obtain ⟨hd, ht⟩ := colon_split _ _ _ _ (colon_not_in_digits _) (colon_not_in_digits _) h
+  exact List.append_inj ht (toDigits_inj _ _ hd)
+
+/-- the regenerated shape of `MessageKey`: the five header fields, each length-prefixed -/
+theorem key_shape : XV.Gen.messageKeyFields = ["String,Type", "Bcname", "From", "Logid", "%d,DataCheckSum"] ∧
+    XV.Gen.messageKeyLengthPrefixed = true := by decide
+
+private theorem msgKey_eq (m : MsgId) : msgKey m =
+    encField true (typeName m.typ) ++ (encField true m.bc ++ (encField true m.sender ++
+      (encField true m.logid ++ (encField true (Nat.toDigits 10 m.sum) ++ [])))) := by
+  unfold msgKey
+  rw [key_shape.1, key_shape.2]
+  simp [List.flatMap_cons, keyField]
+
+private theorem mem_of_lookup {α : Type} (a : Nat) (l : List (Nat × α)) (v : α) (h : l.lookup a = some v) :
+    (a, v) ∈ l := by
+  induction l with
+  | nil => simp at h
+  | cons p l ih =>
+    obtain ⟨k, w⟩ := p
+    simp only [List.lookup_cons] at h
+    by_cases hk : a == k
+    · simp only [hk] at h
+      have : a = k := by simpa using hk
+      simp_all
+    · simp only [hk] at h
+      exact List.mem_cons_of_mem _ (ih h)
+
+private theorem names_distinct : ∀ p ∈ XV.Gen.msgTypeNames, ∀ q ∈ XV.Gen.msgTypeNames,
+    p.2.toList = q.2.toList → p.1 = q.1 := by decide
+
+private theorem names_not_numbers : ∀ p ∈ XV.Gen.msgTypeNames, ∃ c ∈ p.2.toList, c.isDigit = false := by decide
+
+private theorem typeName_inj (a b : Nat) (h : typeName a = typeName b) : a = b := by
+  unfold typeName at h
+  cases ha : XV.Gen.msgTypeNames.lookup a with
+  | none =>
+    cases hb : XV.Gen.msgTypeNames.lookup b with
+    | none => simp only [ha, hb] at h; exact toDigits_inj _ _ h
+    | some nb =>
+      simp only [ha, hb] at h
+      obtain ⟨c, hc, hd⟩ := names_not_numbers _ (mem_of_lookup _ _ _ hb)
+      have := Nat.isDigit_of_mem_toDigits (b := 10) (n := a) (by decide) (by decide) (by rw [h]; exact hc)
+      simp [hd] at this
+  | some na =>
+    cases hb : XV.Gen.msgTypeNames.lookup b with
+    | none =>
+      simp only [ha, hb] at h
+      obtain ⟨c, hc, hd⟩ := names_not_numbers _ (mem_of_lookup _ _ _ ha)
+      have := Nat.isDigit_of_mem_toDigits (b := 10) (n := b) (by decide) (by decide) (by rw [← h]; exact hc)
+      simp [hd] at this
+    | some nb =>
+      simp only [ha, hb] at h
+      exact names_distinct _ (mem_of_lookup _ _ _ ha) _ (mem_of_lookup _ _ _ hb) h
+
+/-- **The de-duplication key is injective**: two messages have the same key only if type, chain,
+sender, log id and checksum all coincide (given the regenerated shape of `MessageKey`: every field
+preceded by its length; the final double SHA-256 is assumed collision free). -/
+theorem msgKey_injective (m m' : MsgId) (h : msgKey m = msgKey m') : m = m' := by
+  rw [msgKey_eq, msgKey_eq] at h
+  obtain ⟨h1, h⟩ := encField_inj _ _ _ _ h
+  obtain ⟨h2, h⟩ := encField_inj _ _ _ _ h
+  obtain ⟨h3, h⟩ := encField_inj _ _ _ _ h
+  obtain ⟨h4, h⟩ := encField_inj _ _ _ _ h
+  obtain ⟨h5, _⟩ := encField_inj _ _ _ _ h
+  cases m; cases m'
+  simp only [MsgId.mk.injEq]
+  exact ⟨typeName_inj _ _ h1, h2, h3, h4, toDigits_inj _ _ h5⟩
+
+private theorem handled_origin (ops : List Op) (st : State) (k : Str) (e : Nat)
+    (h : (k, e) ∈ (runOps st ops).handled) :
+    (∃ e', (k, e') ∈ st.handled) ∨ ∃ m hs, Op.dispatch m hs ∈ ops ∧ msgKey m = k := by
+  induction ops generalizing st with
+  | nil => exact Or.inl ⟨e, h⟩
+  | cons op ops ih =>
+    rcases ih (applyOp st op) h with ⟨e', he'⟩ | ⟨m, hs, hm, hk⟩
+    · cases op with
+      | register s => rw [applyOp_handled_regs st _ (fun _ _ h => Op.noConfusion h)] at he'; exact Or.inl ⟨e', he'⟩
+      | unregister s => rw [applyOp_handled_regs st _ (fun _ _ h => Op.noConfusion h)] at he'; exact Or.inl ⟨e', he'⟩
+      | tick ms => exact Or.inl ⟨e', he'⟩
+      | dispatch m hs =>
+        simp only [applyOp, dispatch] at he'
+        split at he'
+        · exact Or.inl ⟨e', he'⟩
+        · split at he'
+          · exact Or.inl ⟨e', he'⟩
+          · split at he'
+            · exact Or.inl ⟨e', he'⟩
+            · simp only [maskHandled, List.mem_cons, List.mem_filter, Prod.mk.injEq] at he'
+              rcases he' with ⟨hk, _⟩ | ⟨he', _⟩
+              · exact Or.inr ⟨m, hs, List.mem_cons_self, hk.symm⟩
+              · exact Or.inl ⟨e', he'⟩
+    · exact Or.inr ⟨m, hs, List.mem_cons_of_mem _ hm, hk⟩
+
+/-- **Only repeats are dropped.** After any history, a message is treated as already handled only if
+that very message (same type, chain, sender, log id and checksum) was dispatched earlier in the
+history — a different message is never mistaken for a repeat. -/
+theorem dedup_only_repeats (ops : List Op) (m : MsgId)
+    (h : isHandled (runOps Dispatch.init ops) (msgKey m) = true) : ∃ hs, Op.dispatch m hs ∈ ops := by
+  simp only [isHandled, List.any_eq_true, decide_eq_true_eq] at h
+  obtain ⟨⟨k, e⟩, he, hk, _⟩ := h
+  simp only at hk
+  rcases handled_origin ops Dispatch.init k e he with ⟨e', he'⟩ | ⟨m', hs, hm, hk'⟩
+  · simp [Dispatch.init] at he'
+  · have : m' = m := msgKey_injective _ _ (by rw [hk', hk])
+    exact ⟨hs, this ▸ hm⟩
+
+-- the two messages that shared a key before the repair (chain "ab" + sender "c" / chain "a" + sender "bc")
+example : msgKey ⟨3, ['a', 'b'], ['c'], ['L'], 7⟩ ≠ msgKey ⟨3, ['a'], ['b', 'c'], ['L'], 7⟩ := by decide
+
+/-! ### lock discipline of the subscriber table -/
+
+/-- Every access to `d.mc` in a method of `dispatcher` (regenerated from dispatcher.go on every run)
+happens while `d.mu` is held. -/
+theorem mc_accesses_locked : ∀ a ∈ XV.Gen.mcAccesses, a.2.2 = true := by decide
+
+-- non-vacuity
+example : XV.Gen.mcAccesses.length ≥ 8 := by decide
+example : Inv { subs := [⟨1, 3, [], []⟩, ⟨2, 3, ['x'], []⟩], types := [3], handled := [], now := 0 } := by
+  simp [Inv, typeNone]
+-- a history in which a message is delivered to two of three subscribers, dropped on repeat, re-delivered after the window
+example :
+    let s1 : Sub := ⟨1, 3, [], []⟩
+    let s2 : Sub := ⟨2, 3, ['x'], []⟩
+    let s3 : Sub := ⟨3, 3, ['y'], []⟩
+    let m : MsgId := ⟨3, ['x'], ['p'], ['L'], 1⟩
+    let st := runOps Dispatch.init [.register s1, .register s2, .register s3, .register s1, .unregister s3, .register s3]
+    (dispatch st m true).2.2 = [s1, s2] ∧
+    (dispatch (runOps (dispatch st m true).1 [.tick 3000]) m true).2.2 = [] ∧
+    (dispatch (runOps (dispatch st m true).1 [.tick 3001]) m true).2.2 = [s1, s2] := by decide
+
+end Dispatcher
 
 end XV.C20
